@@ -44,6 +44,8 @@ inductive CTerm
   | plain (cls : String) (key : String) (shape : List Nat)                -- Identity, PermutationSymbol, ...: no counters
   deriving DecidableEq, Repr, Inhabited
 
+/-- `Mesh._ufl_sort_key_()` = (gdim, tdim, "Mesh", (ufl_id, coordinate_element)), flattened as harness/uflio.py sends it -/
+def MeshD.sortKey (m : MeshD) : List KeyAtom := [.n m.gdim, .n m.tdim, .s "Mesh", .n m.id, .s m.celem]
 def MeshD.repr (m : MeshD) : String := "Mesh(" ++ m.celem ++ ", " ++ toString m.id ++ ")"
 def SpaceD.repr (s : SpaceD) : String := "FunctionSpace(" ++ s.mesh.repr ++ ", " ++ s.elem ++ ")"
 
@@ -70,8 +72,8 @@ def repr : CTerm → String
 def toTermData : CTerm → TermData
   | .coeff c sp sh => { cls := "Coefficient", key := (CTerm.coeff c sp sh).repr, shape := sh, count := c }
   | .arg n p sp sh => { cls := "Argument", key := (CTerm.arg n p sp sh).repr, shape := sh, count := n, part := p }
-  | .const c m sh => { cls := "Constant", key := (CTerm.const c m sh).repr, shape := sh, count := c }
-  | .geo c m sh => { cls := c, key := (CTerm.geo c m sh).repr, shape := sh }
+  | .const c m sh => { cls := "Constant", key := (CTerm.const c m sh).repr, shape := sh, count := c, dom := m.sortKey }
+  | .geo c m sh => { cls := c, key := (CTerm.geo c m sh).repr, shape := sh, dom := m.sortKey }
   | .label c => { cls := "Label", key := (CTerm.label c).repr, shape := [], count := c }
   | .plain c k sh => { cls := c, key := k, shape := sh }
 
